@@ -212,9 +212,11 @@ impl<'a> Dp<'a> {
         }
     }
 
-    fn rest_one_ascii(&self, j: usize, implicit_pair: bool) -> bool {
+    /// rule d) read literally: exactly one data character remains and it is a single C40/Text/X12
+    /// value in the current mode (and therefore one ASCII codeword); with `implicit_pair` also two digits
+    fn rest_one_ascii(&self, mode: Mode, j: usize, implicit_pair: bool) -> bool {
         let rest = &self.input[j..];
-        (rest.len() == 1 && rest[0] < 128) || (implicit_pair && rest.len() == 2 && rest[0].is_ascii_digit() && rest[1].is_ascii_digit())
+        (rest.len() == 1 && rest[0] < 128 && self.vals_of(mode, rest[0]) == Some(1)) || (implicit_pair && rest.len() == 2 && rest[0].is_ascii_digit() && rest[1].is_ascii_digit())
     }
 
     fn find_final(&self, implicit_pair: bool, trailing_254: bool) -> Option<Final> {
@@ -249,7 +251,7 @@ impl<'a> Dp<'a> {
                         if v % 3 == 2 && mode != Mode::X12 && cap >= body + 2 && src.get(cap - body - 2) {
                             return Some(Final::RuleB { mode, i, l: cap - body - 2 });
                         }
-                    } else if v % 3 == 0 && self.mask & 1 != 0 && self.rest_one_ascii(j + 1, implicit_pair) && cap >= body + 1 && src.get(cap - body - 1) {
+                    } else if v % 3 == 0 && self.mask & 1 != 0 && self.rest_one_ascii(mode, j + 1, implicit_pair) && cap >= body + 1 && src.get(cap - body - 1) {
                         return Some(Final::Implicit { mode, i, j: j + 1, l: cap - body - 1 });
                     }
                 }
